@@ -296,6 +296,7 @@ dispatch_group_leave(dispatch_group_t dg)
 				// we can't clear the waiters bit anymore as we don't know for
 				// which generation the waiters are for
 				new_state &= ~DISPATCH_GROUP_HAS_NOTIFS;
+				DISPATCH_VERIF_PROBE(21);
 			}
 			if (old_state == new_state) break;
 		} while (unlikely(!os_atomic_cmpxchgv2o(dg, dg_state,
